@@ -292,7 +292,7 @@ func c17r2(c *Ctx) {
 		g := f.Graph()
 		for _, pair := range []struct {
 			store, other *types.Var
-			role        string
+			role         string
 		}{{kv.puts, kv.dels, "put-clears-pending-delete"}, {kv.dels, kv.puts, "delete-clears-pending-put"}} {
 			// a two-level store m.fld[b][k] = v
 			var stores []*cfgx.Node
